@@ -171,6 +171,26 @@ func checkPair(a, b Q) *hx.Failure {
 			return hx.Failf("C04/hit-id", "hit carries ID %d, query has %d", r.Id, q.ID)
 		}
 	}
+	// the same must hold across a restart: dump, load into an empty instance, ask again
+	d, err := p.Dump()
+	if err != nil {
+		return hx.Failf("C04/harness", "dump: %v", err)
+	}
+	p2 := cachex.New(4096, 0)
+	defer p2.Close()
+	if code, body := p2.Load(d); code != 200 {
+		return hx.Failf("C04/harness", "load_dump: %d %s", code, body)
+	}
+	for _, q := range []Q{a, b} {
+		q.ID += 2
+		reached, tok, _, err := ask(p2, q, &n)
+		if err != nil {
+			return hx.Failf("C04/harness", "re-query after reload: %v", err)
+		}
+		if !reached && tok != q.exact() {
+			return hx.Failf("C04/shared-entry-after-reload", "after dump+load, [%v] is served the answer stored for %q (pair differs in: %s)", q, tok, diff)
+		}
+	}
 	return nil
 }
 
